@@ -40,10 +40,26 @@ fn main() {
         std::process::exit(c04::depth_child(args.get(2).map(|s| s.as_str()).unwrap_or("")));
     }
     if args[1] == "--c12-digest" {
-        std::process::exit(c12::digest_child(args.get(2).map(|s| s == "reverse").unwrap_or(false)));
+        std::process::exit(c12::digest_child(args.get(2).and_then(|s| s.parse().ok()).unwrap_or(0)));
     }
     if args[1] == "--c15-table" {
         std::process::exit(c15::table_child(args.get(2).map(|s| s == "thorough").unwrap_or(false)));
+    }
+    if args[1] == "--c12-pair" {
+        let i = args.get(2).and_then(|s| s.parse().ok()).unwrap_or(0);
+        let j = args.get(3).and_then(|s| s.parse().ok()).unwrap_or(0);
+        std::process::exit(c12::pair_child(i, j));
+    }
+    if args[1] == "dbg-order" {
+        // optimise the rules given as YAML files in order, print verdicts on the document f = argv[2]
+        let d = mdoc::MObj::new().with("f", mdoc::s(&args[2]));
+        for p in &args[3..] {
+            let y = std::fs::read_to_string(p).unwrap();
+            let r = eng::load(&y).unwrap();
+            let o = r.clone().optimise(eng::opts(0b0100));
+            println!("{} -> {} : {:?}", p, eng::canon(&o), eng::matches(&o, &d));
+        }
+        return;
     }
     if args[1] == "universe" {
         let level: u8 = args.get(2).and_then(|x| x.parse().ok()).unwrap_or(0);
